@@ -447,8 +447,8 @@ fn do_stream(r: &mut Report, rng: &mut Rng, ctx: &Ctx, parts: &[&ClassBytes], st
 			if let (Some(tree), Some(Ok((t, _)))) = (&tree, ans.first()) { replay_masked(r, parts[0], tree, &kind, &descs[0], t); }
 		}
 		// every configuration goes through the oracle; the Coq model gets all of them in the thorough tier
-		// and a rotating third of them in the quick tier (the case files are the expensive part)
-		if ctx.thorough || (j + stream_no) % 3 == 0 { r.count("configs_to_model"); runs.push((descs, ans)); }
+		// and a rotating quarter of them in the quick tier (the case files are the expensive part)
+		if ctx.thorough || (j + stream_no) % 4 == 0 { r.count("configs_to_model"); runs.push((descs, ans)); }
 	}
 	r.case(stream_kind, g_case(&stream, &runs));
 }
@@ -457,16 +457,45 @@ pub fn run(ctx: &Ctx) -> anyhow::Result<Report> {
 	let mut r = Report::new("C17", "C17.Run");
 	let mut rng = Rng::new(ctx.seed);
 	r.shard_size = 16;
-	r.rule = "streams = every class file of corpus/C17 (javac 17, --release 8 and 17, with/without -g -parameters: records, sealed classes, annotations of every element kind, type annotations, lambdas, switches, module-info), corpus/classes and /repo's fixtures alone, plus random concatenations of 2..4 of them read by successive read_class_multi calls on one cursor; per stream: full visitor, class declined, no interests, every single-bit (thorough: and all-but-one) class / method / code interest mask, decline every k-th (k=1..3) field / method / code / record component, random per-member masks and decline choices. One evaluation = one (stream, configuration) run through the real reader with the projection/position oracle; one correspondence case = one stream with all its configurations through the Coq model. Non-trivial = duke reads every class of the stream with the full visitor; distinct by stream bytes.".into();
+	r.rule = "streams = class files alone and random concatenations of 2..4 of them read by successive read_class_multi calls on one cursor. Class files: corpus/C17 (javac 17, --release 8 and 17, with/without -g -parameters: records, sealed classes, annotations of every element kind, type annotations, lambdas, switches, module-info), the shared corpus/classes (javac r8/r11/r17, 260 third-party and JDK classes, crafted classes with unknown attributes at every level, Synthetic, SourceDebugExtension, predefined names at foreign locations; quick tier: every third file of the javac/JDK sample), /repo's fixtures, and classes freshly generated from the seed by fbh::classfile::gen with shuffled attribute order. Per stream: full visitor, class declined, no interests, every single-bit (thorough: and all-but-one) class / method / code interest mask, decline every k-th (k=1..3) field / method / visit_code / record component, random per-member masks and decline choices. One evaluation = one (stream, configuration) run through the real reader with the projection, position and masked-replay oracles; one correspondence case = one stream with its configurations (quick: a rotating quarter of them) through the Coq model, which also checks that the stream decodes to well-formed class structures (the hypothesis of the theorems). Non-trivial = duke reads every class of the stream with the full visitor; distinct by stream bytes.".into();
 
-	let classes = load_classes(&mut r);
+	let mut classes = load_classes(&mut r);
 	if classes.is_empty() { anyhow::bail!("no class files found"); }
+	if !ctx.thorough {
+		// quick tier: the property's own corpus, the crafted classes and /repo's fixtures always; of the large javac / JDK sample every third file (rotating with the seed)
+		let mut k = 0usize;
+		classes.retain(|c| {
+			if c.name.contains("/corpus/C17/") || c.name.contains("/crafted/") || !c.name.contains("/corpus/classes/") { return true; }
+			k += 1; (k + ctx.seed as usize) % 3 == 0
+		});
+		r.count_n("quick_tier_class_files", classes.len() as u64);
+	}
 	// single-class streams
 	for (no, cb) in classes.iter().enumerate() {
 		do_stream(&mut r, &mut rng, ctx, &[cb], "single", no);
 		let full = run_config(&cb.bytes, &[VDesc::full()]);
 		if let Some(Ok((t, _))) = full.first() { replay_checks(&mut r, cb, t); }
 	}
+	// freshly generated classes (fbh::classfile::gen): every attribute kind at every level, unknown attributes,
+	// predefined names at foreign locations, exotic strings; attribute order shuffled by the knobs
+	let n_gen = if ctx.thorough { 250 } else { 40 };
+	let cfg = fbh::classfile::gen::GenCfg::default();
+	let mut generated: Vec<ClassBytes> = vec![];
+	for i in 0..n_gen {
+		let spec = fbh::classfile::gen::gen_class(&mut rng, &cfg);
+		let family = fbh::classfile::asm::Knobs::family(rng.next());
+		let knobs = &family[rng.below(family.len())];
+		match guarded(AssertUnwindSafe(|| fbh::classfile::asm::try_assemble(&spec, knobs))) {
+			Ok(Ok(bytes)) => { r.count("generated_classes"); generated.push(ClassBytes { name: format!("generated #{i} (seed {})", ctx.seed), bytes }); }
+			_ => r.count("generated_not_assembled"),
+		}
+	}
+	for (no, cb) in generated.iter().enumerate() {
+		do_stream(&mut r, &mut rng, ctx, &[cb], "generated", no);
+		let full = run_config(&cb.bytes, &[VDesc::full()]);
+		if let Some(Ok((t, _))) = full.first() { replay_checks(&mut r, cb, t); }
+	}
+	classes.extend(generated);
 	// concatenations of 2..4 class files
 	let n_concat = if ctx.thorough { 40 } else { 8 };
 	for no in 0..n_concat {
